@@ -63,6 +63,16 @@ CHECKS = {
    note="Trusted: Coq kernel/vm_compute; Model/SuperOps.v, Model/Shapes.v; Python harness. Partial: positivity and the effect of SVD truncation are explored, not proved; the composition of the ingredient theorems into trace/Hermiticity of the whole network is argued in DESIGN.md, not mechanised.",
    technique="Coq proof (ring identities with finite sums, index-pair superoperators) + exact integer differential correspondence + physicality search",
    design="3/C04"),
+ "C05": dict(
+   text="Theorems (Coq, any commutative ring, any dimension): covariance — with W the superoperator of the basis change and Winv W = 1, everything the TEMPO/PT-TEMPO path sum sees of the system (first half step on the initial state, propagation between consecutive time points in the coupling eigenbasis) is unchanged when the problem is rotated, and the read-out is rotated by W (covariance: matrix-algebra proof over finite sums); for a unitary U the two superoperators the back-ends build are mutually inverse (super_u_inverse), and the premise fails without unitarity (contract_needed_refuted). Tied to /repo by the back-end path-sum correspondence with integer basis-change matrices; the eigen-solver contract is searched on the real Bath (Hermitian operators with repeated/zero eigenvalues, Haar and structured rotations) and covariance through Tempo, PtTempo, MeanFieldTempo.",
+   note="Trusted: Coq kernel/vm_compute; Model/SuperOps.v, Model/PathSum.v; Python harness. Conditional on the eigen-solver contract (LAPACK eigh is not modelled; checked on the implementation). Independence of the choice of eigenvectors inside a degenerate eigenspace is covered by the search only.",
+   technique="Coq proof (functional matrices, finite sums) conditional on the solver contract + differential correspondence + contract/covariance search",
+   design="3/C05"),
+ "C06": dict(
+   text="Theorems (Coq): class maps by first representative are sound for every list of keys (same key at the representative, representative is the first index of the class, same class iff same key: class_map_sound, representative_is_first, same_class_iff_same_key); the influence coefficient depends on the earlier index only through (commutator, anti-commutator) eigenvalues and on the later one only through the commutator eigenvalue, so evaluating it at class representatives reproduces the full matrix (influence_reduced, any ring, all cell shapes). Tied to /repo by comparing Bath's degeneracy maps with the model as partitions on engineered spectra, by running both back-ends WITH maps and reduced integer influences against the FULL path-sum model, and by a public-API search unique=True vs False (Tempo, PtTempo, MeanFieldTempo, rotated degenerate couplings).",
+   note="Trusted: Coq kernel/vm_compute; Model/Degeneracy.v, Model/Shapes.v, Model/PathSum.v; Python harness. The scatter loops that build the reduced dk=0 tensors are tied by correspondence, not proved.",
+   technique="Coq proof (lists / first-index class maps; ring identity) + exact partition correspondence + reduced-vs-full path-sum correspondence",
+   design="3/C06"),
 }
 
 NOT_YET = {}
